@@ -19,6 +19,17 @@ from vlib import Ctx, VERIF
 sys.path.insert(0, vlib.REPO)
 
 
+# functions of tools/pycorr.py (translated code vs CPython) per property
+PYCORR = {
+    "C01": ["normalize_bcast_dims", "get_bcasted_dims"], "C11": ["normalize_bcast_dims", "get_bcasted_dims"],
+    "C14": ["normalize_bcast_dims", "get_bcasted_dims"],
+    "C04": ["separator"], "C08": ["separator"],
+    "C09": ["uniquifier"], "C10": ["uniquifier"],
+    "C18": ["set_default_option", "get_and_pop_keys", "get_method"],
+    "C20": ["packer_unique_idxs"],
+}
+
+
 def write_replay(ctx, idx, payload):
     d = os.path.join(VERIF, "replay")
     os.makedirs(d, exist_ok=True)
@@ -74,7 +85,11 @@ def main():
             ctx.broken("forbidden-construct", hits)
         # everything the generated case files import (the executable drivers) is rebuilt with the theorems
         import re as _re
-        hdr_mods = sorted(set(_re.findall(r"\b((?:Base|Model|Gen|Proofs)\.\w+)", getattr(mod, "HEADER", ""))))
+        hdr_text = getattr(mod, "HEADER", "")
+        if prop in PYCORR:
+            import pycorr
+            hdr_text += pycorr.HEADER
+        hdr_mods = sorted(set(_re.findall(r"\b((?:Base|Model|Gen|Proofs)\.\w+)", hdr_text)))
         ok, log, dt = vlib.coq_make(["Props/%s.vo" % prop] + [m.replace(".", "/") + ".vo" for m in hdr_mods]
                                     + list(getattr(mod, "EXTRA_TARGETS", [])))
         ctx.notes["make_s"] = round(dt, 1)
@@ -100,6 +115,13 @@ def main():
         mod.check(ctx)
     except Exception as e:
         ctx.broken("harness-exception", "%s\n%s" % (e, traceback.format_exc()[-4000:]))
+    # the translated plumbing code this property's theorems are stated over: generated definitions vs CPython
+    if prop in PYCORR:
+        try:
+            import pycorr
+            pycorr.check(ctx, PYCORR[prop], ctx.n(40, 300))
+        except Exception as e:
+            ctx.broken("translated-model-correspondence", "%s\n%s" % (e, traceback.format_exc()[-3000:]))
 
     # ---- 4. findings ----
     findings = vlib.load_findings(prop)
